@@ -86,7 +86,7 @@ prop("C05", "fault_enumeration",
      "per run one clone scenario of the C02/C03 family through bita clone at the syscall seam (seeds, prior output, regular file or faked block device, local or HTTP). An uninterrupted execution counts W = write(2) calls on the output. "
      "Crash family (2/3 of runs): for EVERY k in 0..W (20 sampled values incl. 0 and W-1 when W > 20) the clone runs under a drawn pool schedule with process death at the k-th write, torn after a prefix drawn from {0, 1, mid, len-1, all}: "
      "user-space buffers and pending background writes are lost, the file as it is is the durable state; then 0..2 further crashed re-runs with --seed-output; then a fault-free, step-bounded bita clone --seed-output that must succeed and leave exactly the source. "
-     "Error family (1/3): the k-th write fails with ENOSPC/EIO, nothing or a short prefix written, INCLUDING the last write, with and without --verify-output: the run must not exit 0 unless the output is complete; the re-run completes. Legal short writes and EINTR must change nothing; a failing final resize (ftruncate) must fail the run. Read-fault family (within the error family): one pread/read of the output during the in-place scan or re-ordering fails with EIO (CLI), or a drawn read of the simulated output fails / a short write is followed by EINTR (library flow): the run fails or the output is complete, never success with wrong bytes. "
+     "Error family (1/3): the k-th write fails with ENOSPC/EIO, nothing or a short prefix written, INCLUDING the last write, with and without --verify-output: the run must not exit 0 unless the output is complete; the re-run completes. Legal short writes and EINTR must change nothing; a failing final resize (ftruncate) must fail the run. Read-fault family (within the error family): one read of the output during the in-place scan or re-ordering fails with EIO (CLI; half of the faults aimed at the few reads of the re-ordering, two thirds of the runs with short reads so that the scan has a middle), or a drawn read of the simulated output fails / a short write is followed by EINTR (library flow): the run fails or the output is complete, never success with wrong bytes. "
      "Non-trivial: at least one fault fired and W >= 3; distinct: trace hash + (W, crash points, family, device, in-place).",
      {"quick": {"runs": 1200, "max_secs": 150}, "thorough": {"runs": 60000, "max_secs": 1500}},
      ["crash model: process death, not power loss -- what write(2) returned for survives, tokio's user-space buffer and not-yet-run background writes do not; bita never calls fsync and the property's quantifier is exactly 'k-th write not performed, fully performed or torn after any prefix'",
@@ -98,7 +98,7 @@ prop("C07", "exploration",
      {"quick": {"runs": 12000, "max_secs": 150}, "thorough": {"runs": 600000, "max_secs": 1200}})
 prop("C08", "fault_enumeration",
      "a random content, a drawn list of 1..10 ranges (adjacent runs, gaps, unordered, repeated/overlapping; sizes 1 B .. 70 KB, up to 3 MiB in the thorough tier) read through read_chunks or read_at. "
-     "Local: IoReader over a SimFile with drawn read fragmentation (1 byte .. whole), Pending at any poll (reads and seeks), early EOF at a drawn offset, one run in six a drawn read failing with EINTR / EAGAIN / EIO (the reader reports it or delivers right bytes, never wrong ones); a third of the readers have been used before (position anywhere), a sixth of the lists start at byte 0. HTTP: HttpReader against a server that is correct when it answers, with a failure script drawn per request "
+     "Local: IoReader over a SimFile with drawn read fragmentation (1 byte .. whole), Pending at any poll (reads and seeks), early EOF at a drawn offset, one run in six a drawn read failing with EINTR / EAGAIN / EIO (the reader reports it or delivers right bytes, never wrong ones); a third of the readers have been used before (position anywhere), a sixth of the lists start at byte 0. HTTP: HttpReader (a quarter of the chunk-stream readers used before: an earlier stream over adjacent ranges polled for some items and dropped mid-response) against a server that is correct when it answers, with a failure script drawn per request "
      "(refused connection; body cut after c bytes with c drawn from {uniform, 0, all, all-1, first 8}; early EOF; stall + request timeout), retry budget 0..3, retry delay {0,1,30} s of virtual time. "
      "After a body-level error the stream is polled up to three more times: it must not deliver anything but further errors or the end. Oracle over the recorded history: items are a prefix of the requested ranges' bytes in order, then at most one error, then nothing; a run with f <= R failures completes, f > R or an early EOF yields an error; "
      "every (re)request's Range starts at the first byte not yet delivered and ends at the run's end; retry delays elapse in virtual time; the run finishes within the step budget. "
